@@ -84,12 +84,13 @@ let rp_msg_of (tok : string) : rp_msg =
   | 'e' -> { rp_m_seq = seq; rp_m_auth = RpGenuine; rp_m_echo = RpEchoOk }
   | 'x' -> { rp_m_seq = seq; rp_m_auth = RpGenuine; rp_m_echo = RpEchoBad }
   | 'f' | 'F' | 'P' -> { rp_m_seq = seq; rp_m_auth = RpForged; rp_m_echo = RpEchoNone }
+  | 'K' | 'O' -> { rp_m_seq = seq; rp_m_auth = RpUnroutable; rp_m_echo = RpEchoNone }
   | _ -> failwith "msg kind"
 
 let verdict_letter (r : rp_verdict) : string =
   match r with
   | RpAccept -> "A" | RpRejReplay -> "R" | RpRejDecrypt -> "D" | RpRejChallenge -> "C"
-  | RpRejEchoBad -> "E"
+  | RpRejEchoBad -> "E" | RpRejUnroutable -> "N"
 
 let rpd toks =
   match toks with
